@@ -203,12 +203,6 @@ theorem parseStartTag_write_partial (P : Params) (cd : Option PStr) (name rest :
     List.drop_zero, htf, hk, hloop, htake, hstrip, hl]
   simp; omega
 
-/- Future work (stated, not proved): the same with attributes, for
-   `writeTag name attrs = "<" ++ name ++ (attrs.flatMap fun (k, v) => " " ++ k ++ "=\"" ++ v ++ "\"") ++ ">"`,
-   `NameOK name`, `NameOK k`, no `"` in `v`, `P.lower k = k`, `P.unescape v = v`:
-   `parseStartTag P cd (writeTag name attrs ++ rest) = .ok (.st name (attrs.map fun (k, v) => (k, some v))) (writeTag name attrs).length …`.
-   It needs the two attribute loops (`locAttrs`, `attrLoop`) unrolled by induction over `attrs`; the single-attribute step is
-   `attrFind 32 (k ++ "=\"" ++ v ++ "\"" ++ tail) = some (k, some ("\"" ++ v ++ "\""), k.length + v.length + 3 + wsSlashLen tail)`.
-   The harness's "written" stream exercises exactly this grammar (and more) against the real parser. -/
+/- The statement with attributes `<name k="v" …>` is proved in `Proofs/TokenizerRoundAttrs.lean` (`parseStartTag_write`). -/
 
 end BS.Tokenizer
